@@ -95,6 +95,17 @@ const SIGS: [(&str, yash_env::signal::Number); 6] = [
     ("USR2", yash_env::system::r#virtual::SIGUSR2),
 ];
 
+/// The simulator stores the working directory as the string passed to `chdir`
+/// appended to the previous one ("/tmp/."): "." components and repeated
+/// slashes are dropped (always meaning-preserving); nothing else is touched.
+fn normal_path(p: &str) -> String {
+    if !p.starts_with('/') {
+        return p.to_string();
+    }
+    let parts: Vec<&str> = p.split('/').filter(|c| !c.is_empty() && *c != ".").collect();
+    format!("/{}", parts.join("/"))
+}
+
 /// Flattens `shell::snapshot` and adds descriptor table and dispositions.
 fn flat_snapshot(env: &mut VEnv) -> Flat {
     use yash_env::system::GetPid as _;
@@ -139,7 +150,7 @@ fn flat_snapshot(env: &mut VEnv) -> Flat {
     for t in s["traps"].as_array().cloned().unwrap_or_default() {
         m.insert(format!("trap:{}", t[0].as_str().unwrap_or("")), t[1].as_str().unwrap_or("").to_string());
     }
-    m.insert("cwd".into(), s["cwd"].as_str().unwrap_or("").to_string());
+    m.insert("cwd".into(), normal_path(s["cwd"].as_str().unwrap_or("")));
     m.insert("umask".into(), format!("{:03o}", s["umask"].as_u64().unwrap_or(0)));
     let pid = env.system.getpid();
     let state = ST.with(|s| s.borrow().clone());
